@@ -1,5 +1,6 @@
 """Check C18: Murmur2.tla / Partitioner.tla against afkak's partitioners."""
 import json
+import os
 import random
 import re
 import warnings
@@ -194,6 +195,40 @@ def vectors(chk, wd, maxlen):
     return n
 
 
+def unbounded_fairness(chk, tier):
+    """round-robin fairness for runs of any length: RoundRobinInd.tla's inductive invariant discharged by Apalache
+    (initiation, consecution, and invariant => fairness clauses)"""
+    import shutil
+    import subprocess
+    import tempfile
+    apa = shutil.which("apalache-mc")
+    if apa is None:
+        chk.notes.append("apalache-mc not found: the unbounded round-robin argument was not re-checked in this run")
+        return
+    out = tempfile.mkdtemp(prefix="apa-", dir=tlc.BUILD)
+    spec = os.path.join(tlc.VERIF, "spec", "RoundRobinInd.tla")
+    steps = [("initiation", ["--init=Init", "--inv=IndInv", "--length=0"]),
+             ("consecution", ["--init=IndInit", "--inv=IndInv", "--length=1"]),
+             ("fairness", ["--init=IndInit", "--inv=Fair", "--length=0"])]
+    try:
+        for name, args in steps:
+            try:
+                r = subprocess.run([apa, "check", "--out-dir=" + out] + args + [spec], capture_output=True, text=True, timeout=600)
+            except subprocess.TimeoutExpired:
+                chk.notes.append("apalache timed out on %s: the unbounded argument is not claimed in this run" % name)
+                return
+            txt = r.stdout + r.stderr
+            if "EXITCODE: OK" in txt:
+                chk.count("C18.rr_fair_unbounded:%s:proved" % name)
+            elif "EXITCODE: ERROR (12)" in txt:
+                chk.violation("C18.rr_fair_unbounded", name, "Apalache found a counterexample to the %s obligation of RoundRobinInd" % name,
+                              {"family": "apalache", "obligation": name, "output": txt[-3000:]})
+            else:
+                raise tlc.MachineryError("apalache failed on %s:\n%s" % (name, txt[-1500:]))
+    finally:
+        shutil.rmtree(out, ignore_errors=True)
+
+
 def main(prop, tier, seed, replay_file):
     warnings.simplefilter("ignore")
 
@@ -208,6 +243,7 @@ def main(prop, tier, seed, replay_file):
         wd = tlc.workdir("C18-%s" % tier)
         res = tlc.model_check(wd, "MC_Part", "Partitioner", DEFS, design_cfg()).check()
         chk.add_model("Partitioner", res, {"Lists": LISTS, "MaxRun": 8}, "all histories of selections with list changes from every start")
+        unbounded_fairness(chk, tier)
         gres, g = tlc.dump_graph(wd, "MC_graph", "Partitioner", DEFS,
                                  [l.replace("MaxRun = 8", "MaxRun = %d" % (6 if thorough else 5)) for l in design_cfg(False)])
         paths = g.edge_cover(rng, max_len=20)
